@@ -30,7 +30,7 @@ def gen_cases(ctx, n):
 def run(ctx):
     fw.static_proofs(ctx, ['Properties/C01.v', 'Properties/C01_native.v', 'Properties/C01_end_to_end.v'])
     so = fw.build_fjcore(ctx)
-    base = gen_cases(ctx, ctx.n(1500, 40000))
+    base = gen_cases(ctx, ctx.n(1500, 15000))
     cases = []
     for c in base:
         for e in ENGINES:
